@@ -102,6 +102,10 @@ class Setup(object):
         # the directories are called), and once more with a duplicate and a trailing separator
         self.reversed = Application([(pm + '/r', StaticApplication([self.root2, self.root1]))], slash_mode=mode)
         self.reversed2 = Application([(pm + '/r', StaticApplication([self.root2 + os.sep, self.root1, self.root2]))], slash_mode=mode)
+        # a prefix composed by nesting: the static application inside an application inside an application (and one level more)
+        self.nested = Application([('/v1', Application([(pm + '/n', StaticApplication(self.root1))], slash_mode=mode))], slash_mode=mode)
+        self.nested3 = Application([('/v2', Application([('/mid/', Application([(pm + '/n', StaticApplication(self.root1))], slash_mode=mode))],
+                                                        slash_mode=mode))], slash_mode=mode)
 
 
 def check_reversed(ctx, setup):
@@ -126,6 +130,34 @@ def check_reversed(ctx, setup):
                 ctx.mismatch('file-not-served', 'GET %r with search order [root2, root1]: regular file of the first search directory answered %s' % (path, r.status), case)
                 return
     ctx.event('reversed-search-order-checked')
+
+
+def check_nested(ctx, setup):
+    """every file of root1 at its relative path under a prefix composed by nesting applications - and nowhere else under it"""
+    for app, pfx, which in ((setup.nested, '/v1' + setup.pm + '/n', 'nested'), (setup.nested3, '/v2/mid' + setup.pm + '/n', 'nested3')):
+        for rel in sorted(FILES1):
+            if must_serve(rel.split('/')) is None:
+                continue        # (a first segment that starts with two dots is refused: not a path the statement requires to be served)
+            case = {'segs': rel.split('/'), 'which': which}
+            r = call(app, pfx + '/' + rel)
+            ctx.requests += 1
+            if r.exc is not None:
+                ctx.mismatch('static-raises', 'GET %r (nested mount): %r' % (pfx + '/' + rel, r.exc), case)
+                return
+            if r.status != 200 or r.body != FILES1[rel]:
+                ctx.mismatch('file-not-served', 'GET %r (static application mounted by nesting applications): %s, %d bytes; the file has %d'
+                             % (pfx + '/' + rel, r.status, len(r.body), len(FILES1[rel])), case)
+                return
+            # the same file under a shortened prefix (one of the nesting levels dropped) is not a resource of this application
+            for short in (pfx.rsplit(setup.pm + '/n', 1)[0], '/' + pfx.split('/', 2)[2] if pfx.count('/') > 1 else pfx):
+                if short == pfx or not short:
+                    continue
+                r2 = call(app, short + '/' + rel)
+                ctx.requests += 1
+                if r2.exc is None and r2.status == 200 and r2.body == FILES1[rel] and FILES1[rel]:
+                    ctx.mismatch('served-outside-its-prefix', 'GET %r answered with the file that belongs at %r' % (short + '/' + rel, pfx + '/' + rel), case)
+                    return
+    ctx.event('nested-mounts-checked')
 
 
 def check_response(ctx, r, segs, what, rc, fault=False, method='GET'):
@@ -213,6 +245,7 @@ def run_enum(spec, ctx):
     try:
         try:
             check_reversed(ctx, setup)
+            check_nested(ctx, setup)
         except Exception as e:
             ctx.classify_exc(e, {'segs': [], 'which': 'reversed'}, 'path')
         for first in spec['firsts']:
@@ -621,8 +654,9 @@ def replay(case, kind, ctx):
             fault_case(ctx, setup, app, path, case['segs'], case['fault_at'], getattr(errno, case['errno']), hdrs, case)
         elif 'ims' in case or case.get('method') == 'HEAD':
             run_ims(ctx, setup)
-        elif case.get('which') == 'reversed':
+        elif case.get('which') in ('reversed', 'nested', 'nested3'):
             check_reversed(ctx, setup)
+            check_nested(ctx, setup)
         else:
             one(ctx, setup, case.get('which', 'multi'), case['segs'], case)
     finally:
